@@ -363,35 +363,45 @@ Lemma attr_namespaces_elem : forall ns nm attrs ks,
     ++ flat_map attr_namespaces ks.
 Proof. intros. reflexivity. Qed.
 
-Lemma clean_elem_names : forall x, clean x = true -> forallb good_ns (elem_names x) = true.
-Proof.
-  induction x as [ns nm attrs ks IH| |] using xml_ind'; intros H; try reflexivity.
-  rewrite clean_elem in H. bsplit_all. rewrite elem_names_elem. cbn [forallb].
-  apply andb_true_iff. split.
-  - unfold good_ns. cbn [snd]. match goal with Hn : _ || _ = true |- _ => rewrite orb_comm; exact Hn end.
-  - clear - IH H0. induction ks as [|k ks IHk]; [reflexivity|].
-    simpl in H0. apply andb_true_iff in H0. destruct H0 as [Hk Hks].
-    inversion IH as [|? ? Pk Pks]; subst. cbn [flat_map]. rewrite forallb_app, (Pk Hk), (IHk Pks Hks). reflexivity.
-Qed.
-
 Definition attr_entry_ok (e : string * string * string * string) : bool :=
   match e with (nn, an, au, nu) =>
     (String.eqb nn "cn" && String.eqb nu MATHML_NS && String.eqb an "units" && String.eqb au CELLML_2_0_NS)
     || (String.eqb nn "import" && String.eqb nu CELLML_2_0_NS && String.eqb an "href" && String.eqb au XLINK_NS)
   end.
 
+Lemma forallb_flat_map_ind : forall {A B} (P : A -> bool) (Q : B -> bool) (f : A -> list B) ks,
+  Forall (fun k => P k = true -> forallb Q (f k) = true) ks -> forallb P ks = true -> forallb Q (flat_map f ks) = true.
+Proof.
+  induction ks as [|k ks IHk]; intros IH H; [reflexivity|].
+  simpl in H. apply andb_true_iff in H. destruct H as [Hk Hks].
+  inversion IH as [|? ? Pk Pks]; subst. cbn [flat_map]. rewrite forallb_app, (Pk Hk), (IHk Pks Hks). reflexivity.
+Qed.
+
+Lemma clean_elem_names : forall x, clean x = true -> forallb good_ns (elem_names x) = true.
+Proof.
+  induction x as [ns nm attrs ks IH| |] using xml_ind'; intros H; try reflexivity.
+  rewrite clean_elem in H. bsplit_all. rewrite elem_names_elem. cbn [forallb].
+  apply andb_true_iff. split.
+  - unfold good_ns. cbn [snd]. match goal with Hn : _ || _ = true |- _ => rewrite orb_comm; exact Hn end.
+  - eapply forallb_flat_map_ind; eassumption.
+Qed.
+
+Lemma attrs_entries_ok : forall ns nm attrs, forallb (attr_allowed ns nm) attrs = true ->
+  forallb attr_entry_ok (map (fun a => (nm, a_name a, a_ns a, ns)) (filter (fun a => negb (String.eqb (a_ns a) "")) attrs)) = true.
+Proof.
+  induction attrs as [|a r IHr]; intros Ha; [reflexivity|].
+  simpl in Ha. apply andb_true_iff in Ha. destruct Ha as [Ha Hr].
+  simpl. destruct (String.eqb (a_ns a) "") eqn:En; simpl; [apply IHr; exact Hr|].
+  rewrite (IHr Hr), andb_true_r. unfold attr_allowed in Ha. rewrite En in Ha. simpl in Ha. exact Ha.
+Qed.
+
 Lemma clean_attr_namespaces : forall x, clean x = true -> forallb attr_entry_ok (attr_namespaces x) = true.
 Proof.
   induction x as [ns nm attrs ks IH| |] using xml_ind'; intros H; try reflexivity.
   rewrite clean_elem in H. bsplit_all. rewrite attr_namespaces_elem, forallb_app.
   apply andb_true_iff. split.
-  - match goal with Ha : forallb (attr_allowed ns nm) attrs = true |- _ => clear - Ha; induction attrs as [|a r IHr]; [reflexivity|];
-      simpl in Ha; apply andb_true_iff in Ha; destruct Ha as [Ha Hr] end.
-    simpl. destruct (String.eqb (a_ns a) "") eqn:En; simpl; [apply IHr; exact Hr|].
-    rewrite (IHr Hr), andb_true_r. unfold attr_allowed in Ha. rewrite En in Ha. simpl in Ha. exact Ha.
-  - match goal with Hk : forallb clean ks = true |- _ => clear - IH Hk; induction ks as [|k ks IHk]; [reflexivity|];
-      simpl in Hk; apply andb_true_iff in Hk; destruct Hk as [Hk Hks] end.
-    inversion IH as [|? ? Pk Pks]; subst. cbn [flat_map]. rewrite forallb_app, (Pk Hk), (IHk Pks Hks). reflexivity.
+  - apply attrs_entries_ok. assumption.
+  - eapply forallb_flat_map_ind; eassumption.
 Qed.
 
 Lemma flat_map_nil : forall {A B} (f : A -> list B) l, (forall x, In x l -> f x = []) -> flat_map f l = [].
@@ -406,6 +416,124 @@ Proof.
   - intros e He. unfold element_namespace_map in He.
     pose proof (first_per_name_good (elem_names x) [] (clean_elem_names x H) eq_refl) as Hg.
     rewrite forallb_forall in Hg. specialize (Hg e He). unfold good_ns in Hg. rewrite Hg. reflexivity.
+Qed.
+
+(** the tree the printer means is clean *)
+Definition plain (a : attr) : bool := String.eqb (a_ns a) "".
+
+Lemma clean_el : forall nm attrs kids, forallb plain attrs = true -> forallb clean kids = true -> clean (el nm attrs kids) = true.
+Proof.
+  intros nm attrs kids Ha Hk. unfold el. rewrite clean_elem, Hk, andb_true_r. cbn [orb].
+  replace (String.eqb CELLML_2_0_NS MATHML_NS || String.eqb CELLML_2_0_NS CELLML_2_0_NS) with true by reflexivity.
+  cbn [andb]. rewrite forallb_forall in *. intros a Hin. unfold attr_allowed. specialize (Ha a Hin). unfold plain in Ha. rewrite Ha. reflexivity.
+Qed.
+
+Lemma plain_opt_attr : forall nm v, forallb plain (opt_attr ident nm v) = true.
+Proof. intros. unfold opt_attr. destruct (nonempty v); reflexivity. Qed.
+
+Ltac solve_plain :=
+  repeat (rewrite forallb_app; apply andb_true_iff; split);
+  try apply plain_opt_attr; try reflexivity;
+  try (match goal with |- forallb plain (match ?x with _ => _ end) = true => destruct x; reflexivity end);
+  try (match goal with |- forallb plain (if ?x then _ else _) = true => destruct x; reflexivity end).
+
+Lemma clean_print_unit : forall d, clean (print_unit E ident d) = true.
+Proof. intros. unfold print_unit. apply clean_el; [solve_plain | reflexivity]. Qed.
+
+Lemma forallb_map_true : forall {A B} (P : B -> bool) (f : A -> B) l, (forall x, In x l -> P (f x) = true) -> forallb P (map f l) = true.
+Proof. intros. rewrite forallb_forall. intros y Hy. apply in_map_iff in Hy. destruct Hy as (x & <- & Hx). auto. Qed.
+
+Lemma forallb_flat_map_true : forall {A B} (P : B -> bool) (f : A -> list B) l,
+  (forall x, In x l -> forallb P (f x) = true) -> forallb P (flat_map f l) = true.
+Proof.
+  intros. rewrite forallb_forall. intros y Hy. apply in_flat_map in Hy. destruct Hy as (x & Hx & Hy).
+  specialize (H x Hx). rewrite forallb_forall in H. auto.
+Qed.
+
+Lemma clean_print_units : forall u, forallb clean (print_units E ident u) = true.
+Proof.
+  intros. unfold print_units. destruct (is_import_units u || is_standard_unit u); [reflexivity|].
+  cbn [forallb]. rewrite andb_true_r. apply clean_el; [solve_plain|].
+  apply forallb_map_true. intros. apply clean_print_unit.
+Qed.
+
+Lemma clean_print_variable : forall v, clean (print_variable ident v) = true.
+Proof. intros. unfold print_variable. apply clean_el; [solve_plain | reflexivity]. Qed.
+
+Lemma clean_math_kids : forall s, math_ok E s = true -> forallb clean (math_kids E ident s) = true.
+Proof.
+  intros s H. pose proof (math_kids_mathml s H) as Hm. rewrite forallb_forall in *. intros x Hx.
+  specialize (Hm x Hx). bsplit_all. now apply ns_clean_clean.
+Qed.
+
+Lemma clean_print_reset_child : forall label id s, math_ok E s = true ->
+  forallb clean (print_reset_child E ident ident label id s) = true.
+Proof.
+  intros. unfold print_reset_child. destruct (nonempty id || nonempty s); [|reflexivity].
+  cbn [forallb]. rewrite andb_true_r. apply clean_el; [solve_plain | now apply clean_math_kids].
+Qed.
+
+Lemma clean_print_reset : forall vs r, reset_ok E true vs r = true -> clean (print_reset E ident ident r) = true.
+Proof.
+  intros vs r H. unfold reset_ok in H. bsplit_all. unfold print_reset. apply clean_el; [solve_plain|].
+  rewrite forallb_app. apply andb_true_iff; split; apply clean_print_reset_child; assumption.
+Qed.
+
+Lemma clean_print_shell : forall us s, shell_ok E true us s = true -> c_src s = None ->
+  clean (print_shell E ident ident s) = true.
+Proof.
+  intros us s H Hs. unfold shell_ok in H. rewrite Hs in H. bsplit_all.
+  unfold print_shell. apply clean_el; [solve_plain|].
+  rewrite !forallb_app. repeat (apply andb_true_iff; split).
+  - apply forallb_map_true. intros. apply clean_print_variable.
+  - apply forallb_map_true. intros r Hr. eapply clean_print_reset. by_forallb.
+  - now apply clean_math_kids.
+Qed.
+
+Lemma clean_print_component : forall us c, comp_ok E true us c = true ->
+  forallb clean (print_component E ident ident c) = true.
+Proof.
+  intros us. induction c as [s ks IH] using comp_ind'. intros H.
+  rewrite comp_ok_unfold in H. apply andb_true_iff in H. destruct H as [Hs Hk].
+  rewrite print_component_unfold, forallb_app. apply andb_true_iff; split.
+  - destruct (c_src s) eqn:Es; [reflexivity|]. cbn [forallb]. rewrite andb_true_r. eapply clean_print_shell; eauto.
+  - apply forallb_flat_map_true. intros k Hkin. rewrite Forall_forall in IH. apply IH; [exact Hkin|]. by_forallb.
+Qed.
+
+Lemma clean_print_encapsulation : forall c, clean (print_encapsulation ident c) = true.
+Proof.
+  induction c as [s ks IH] using comp_ind'. rewrite print_encapsulation_unfold. apply clean_el; [solve_plain|].
+  apply forallb_map_true. intros k Hk. rewrite Forall_forall in IH. now apply IH.
+Qed.
+
+Lemma clean_print_import : forall m i, clean (print_import ident m i) = true.
+Proof.
+  intros. unfold print_import, el. rewrite clean_elem.
+  apply andb_true_iff; split; [apply andb_true_iff; split; [reflexivity|]|].
+  - cbn [forallb]. apply andb_true_iff; split; [reflexivity|].
+    unfold opt_attr. destruct (nonempty (is_id i)); reflexivity.
+  - rewrite forallb_app. apply andb_true_iff; split; apply forallb_map_true; intros; apply clean_el; try reflexivity; solve_plain.
+Qed.
+
+Lemma clean_print_connections : forall cs l done, forallb clean (print_connections ident cs l done) = true.
+Proof.
+  intros cs. induction l as [|e r IH]; intros done; [reflexivity|].
+  cbn [print_connections]. destruct (existsb (ppair_eqb (me_pair e)) done); [apply IH|].
+  cbn [forallb]. rewrite IH, andb_true_r. apply clean_el; [solve_plain|].
+  apply forallb_map_true. intros x _. unfold print_map_variables. apply clean_el; [solve_plain | reflexivity].
+Qed.
+
+Lemma clean_print_tree : forall m, forallb (comp_ok E true (m_units m)) (m_comps m) = true -> clean (print_tree E m) = true.
+Proof.
+  intros m H. unfold print_tree, print_gen. apply clean_el; [solve_plain|].
+  rewrite !forallb_app. repeat (apply andb_true_iff; split).
+  - unfold print_imports. apply forallb_map_true. intros. apply clean_print_import.
+  - apply forallb_flat_map_true. intros. apply clean_print_units.
+  - apply forallb_flat_map_true. intros c Hc. eapply clean_print_component. by_forallb.
+  - apply clean_print_connections.
+  - destruct (flat_map _ (m_comps m)) eqn:Ef; [reflexivity|]. cbn [forallb]. rewrite andb_true_r.
+    apply clean_el; [solve_plain|]. rewrite <- Ef. apply forallb_flat_map_true. intros c _.
+    destruct (kids c); [reflexivity|]. cbn [forallb]. rewrite andb_true_r. apply clean_print_encapsulation.
 Qed.
 
 End LoadProofs.
